@@ -49,7 +49,8 @@ RULE = ("for a configuration (grid of 1-4 variations, rep_max below / at / "
         "class); non-trivial = the crash happened after at least one "
         "repetition or during a save."
         "The runner under test implements the per-combination start hook and logs every repetition executed without it. "
-        "Progress output off / in files / on the (redirected) screen. ")
+        "Progress output off / in files / on the (redirected) screen. "
+        "A fifth of the configurations run one job per combination (simulate(index)); a third of the guard cases also change a parameter of the interrupted runner itself (item syntax or add) before it is started again. ")
 ASSUMPTIONS = ["a crash is os._exit at the failpoint (no buffered data is "
                "flushed); torn writes keep the first b bytes of the file",
                "the restarted run uses the same parameters and a fresh process"]
@@ -254,6 +255,36 @@ def child_main(conf, wd, faults, uid_base, tag, override=None):
         if c.partial_folder is not None:
             r.partial_results_folder = c.partial_folder
         interrupted = None
+        if getattr(c, "jobs", False):
+            # one job per parameter combination (the cluster way): simulate(i) for
+            # each index; the product of a job is that combination's results file
+            nv = nvariations(c)
+            rr = []
+            for v in range(nv):
+                try:
+                    r.simulate(v)
+                except KeyboardInterrupt:
+                    if state.get("raised"):
+                        os.write(log_fd, b"exit after KeyboardInterrupt in a write\n")
+                        os._exit(137)
+                    raise
+                rr.append(int(np.atleast_1d(r.runned_reps)[-1]))
+            files = {}
+            for dp, _, fs in os.walk(wd):
+                for f in fs:
+                    if "_unpack_" in f and f.endswith(".pickle"):
+                        sr = SimulationResults.load_from_file(os.path.join(dp, f))
+                        files[max(sr.params.unpack_index, 0)] = sr
+            out = {"interrupted": None, "runned_reps": rr,
+                   "ids": [[int(i) for i in files[v]["ids"][-1].get_result_accumulated_values()]
+                           if v in files else [] for v in range(nv)],
+                   "cnt": [int(files[v]["cnt"][-1].get_result()) if v in files else -1
+                           for v in range(nv)],
+                   "ncalls": r.ncalls, "nopen": state["nopen"], "nreplace": state["nreplace"],
+                   "sizes": {str(k): v for k, v in state["sizes"].items()}}
+            with builtins.open(os.path.join(wd, "summary_%s.json" % tag), "w") as f:
+                json.dump(out, f)
+            os._exit(0)
         try:
             r.simulate()
         except KeyboardInterrupt:
@@ -273,6 +304,16 @@ def child_main(conf, wd, faults, uid_base, tag, override=None):
             # then call simulate() again on the SAME runner object
             interrupted = {"exc": type(e).__name__,
                            "durable": {str(k): v for k, v in durable_state(wd, 0).items()}}
+            cp = faults.get("change_param")
+            if cp:
+                # the user also changes a parameter of the SAME runner before
+                # starting again (item syntax or add): what is on disk belongs to
+                # the old value and must be refused
+                if cp[2] == "item":
+                    r.params[cp[0]] = cp[1]
+                else:
+                    r.params.add(cp[0], cp[1])
+                os.write(log_fd, ("changed %s\n" % cp[0]).encode())
             r.simulate()
         res = r.results
         out = {"interrupted": interrupted, "runned_reps": [int(x) for x in np.atleast_1d(r.runned_reps)],
@@ -398,6 +439,8 @@ def gen_conf(rng, big):
 
     # some repetitions raise SkipThisOne (never counted, never saved)
     c.skip_p = float(rng.choice([0.0, 0.0, 0.25, 0.45])) if not big else 0.0
+    # one job per combination, simulate(index), instead of one simulate() for all
+    c.jobs = rng.random() < 0.2
     return c
 
 
@@ -407,7 +450,8 @@ def conf_tag(c):
             "results_name": c.results_name, "partial_folder": c.partial_folder,
             "virtual_clock_step": getattr(c, "clock_step", 0),
             "stop_at": getattr(c, "stop_at", None), "skip_probability": getattr(c, "skip_p", 0.0),
-            "progress_output": getattr(c, "progress", None)}
+            "progress_output": getattr(c, "progress", None),
+            "one_job_per_combination": getattr(c, "jobs", False)}
 
 
 def want_reps(c):
@@ -541,6 +585,8 @@ def decide(ctx, conf, wd, tag, kind, point, restarts=1):
                             runned_reps=out["runned_reps"]))
         else:
             ctx.ev("exactly-once", True)
+    if getattr(conf, "jobs", False):
+        return ok_all          # (no combined results file: the jobs' files are the product)
     # the final results file is loadable and holds the same repetitions
     final = None
     for dp, _, fs in os.walk(wd):
@@ -644,6 +690,7 @@ def case_sameobject(ctx, rng, idx):
     """simulate() is interrupted by an exception raised inside a repetition
     (Ctrl-C, an error in user code) and called again on the SAME runner."""
     conf = gen_conf(rng, False)
+    conf.jobs = False
     tag = conf_tag(conf)
     nvar = nvariations(conf)
     W0 = want_reps(conf)
@@ -775,6 +822,22 @@ def case_guard(ctx, rng, idx):
         ok = st2 == 0 and out is not None and all(
             len(x) == want and len(set(x)) == want for x in out["ids"])
         ctx.ev("parameter-guard", ok, cls=kind + ":should-resume", detail=d)
+    if idx % 3 == 1 and not getattr(conf, "jobs", False):
+        # the same refusal when the SAME runner object is started again after an
+        # interruption and a parameter was changed on it in between
+        how = "item" if rng.random() < 0.6 else "add"
+        wd3 = fresh_dir("c07_%d_guard_same" % idx)
+        st3 = run_child(conf, wd3, {"raise": (conf.rep_max + 1, "RuntimeError"),
+                                    "change_param": ("bias", 2.5, how)}, 0, "first")
+        err3 = read_text(os.path.join(wd3, "err_first.txt"))
+        log3 = read_text(os.path.join(wd3, "log_first.txt"))
+        if "changed bias" in log3:
+            ctx.ev("parameter-guard", st3 != 0 and "ValueError" in err3,
+                   cls="same-object:changed-by-%s:not-refused" % how,
+                   detail={**tag, "status": st3, "error": err3[-400:]})
+        else:
+            ctx.tally("same-object-guard-not-reached")
+        shutil.rmtree(wd3, ignore_errors=True)
     ctx.sample("guard", {**tag, "changed": kind, "override": {k: repr(v) for k, v in ov.items()},
                          "restart_status": st2})
     ctx.sig("guard", kind, conf.rep_max)
